@@ -1,5 +1,7 @@
 """C10 - encoders never emit bytes that decode to a different value."""
 import array
+import collections
+import collections.abc
 import datetime
 import decimal
 import math
@@ -147,7 +149,7 @@ def eq(decoded, inp):
             return decoded == norm(inp)
         except (OverflowError, ValueError):
             return False
-    if isinstance(inp, dict):
+    if isinstance(inp, collections.abc.Mapping):
         if not isinstance(decoded, dict):
             return False
         want = {}
@@ -157,16 +159,40 @@ def eq(decoded, inp):
             want[k[:128]] = v
         return sorted(want) == sorted(decoded) and \
             all(eq(decoded[k], want[k]) for k in want)
-    if isinstance(inp, list):
-        return isinstance(decoded, list) and len(decoded) == len(inp) and \
-            all(eq(a, b) for a, b in zip(decoded, inp))
+    if isinstance(inp, (collections.abc.Set, collections.abc.KeysView,
+                        collections.abc.ItemsView)):
+        # an unordered collection accepted as an array: same elements
+        items = list(inp)
+        if not isinstance(decoded, list) or len(decoded) != len(items):
+            return False
+        rest = list(decoded)
+        for it in items:
+            for k, d in enumerate(rest):
+                if eq(d, list(it) if isinstance(it, tuple) else it):
+                    del rest[k]
+                    break
+            else:
+                return False
+        return True
+    if isinstance(inp, (list, tuple, range, collections.deque,
+                        collections.abc.ValuesView)):
+        # a tuple / range / deque accepted as an array comes back as a list:
+        # the values, not the container type, are what must survive
+        items = list(inp)
+        return isinstance(decoded, list) and len(decoded) == len(items) and \
+            all(eq(a, b) for a, b in zip(decoded, items))
     if inp is None:
         return decoded is None
     if isinstance(inp, (memoryview, array.array)):
         # normalised input of a buffer object: the bytes it holds
         try:
-            return isinstance(decoded, (bytes, bytearray)) and \
-                bytes(decoded) == inp.tobytes()
+            if isinstance(decoded, (bytes, bytearray)):
+                return bytes(decoded) == inp.tobytes()
+            # ... or, read as a sequence of numbers, its items
+            items = inp.tolist()
+            return isinstance(decoded, list) and \
+                len(decoded) == len(items) and \
+                all(eq(a, b) for a, b in zip(decoded, items))
         except Exception:  # noqa
             return False
     try:
